@@ -21,7 +21,7 @@ from mirsym.interp import explore, PathStats
 
 PROP = 'C09'
 EXPR_ALPHABET = [ord(c) for c in '<>= 0123456789x+\t']
-LINE_ALPHABET = [ord(c) for c in 'a \t']
+LINE_ALPHABET = [ord(c) for c in 'a \t\x0c']
 OPS = [('<=', 'Le'), ('>=', 'Ge'), ('==', 'Eq'), ('<', 'Lt'), ('>', 'Gt')]
 TAG_PREFIX = b'/* <block name="blk" line-count="'
 TAG_SUFFIX = b'"> */'
@@ -295,10 +295,10 @@ def main(tier):
             agg.engine_errors.append({'engine_error': 'translator validation: ' + msg})
     bounds = {k: v for k, v in b.items()}
     bounds['tasks'] = len(tasks)
-    bounds['alphabets'] = dict(expr=''.join(map(chr, EXPR_ALPHABET)), line=''.join(map(chr, LINE_ALPHABET)))
+    bounds['alphabets'] = dict(expr=''.join(map(chr, EXPR_ALPHABET)), line='a, space, tab, form feed')
     return finish(
         agg, bounds,
-        assumptions=['ASCII only; expression bytes over the stated alphabet; content bytes over {a, space, tab}',
+        assumptions=['ASCII only; expression bytes over the stated alphabet; content bytes over {a, space, tab, form feed}',
                      'family A: expression symbolic, content concrete; family B: expression from a concrete menu, content symbolic',
                      'serde_json::to_value is modelled as the identity on the payload struct; message text is opaque'],
         stubs=['serde_json::to_value (identity on the struct)', 'fmt::format / anyhow message construction (opaque)'],
